@@ -178,10 +178,21 @@ func mkLookups(tr *tracer.T, id int, l mkLookup, rng *rand.Rand, n int) {
 	}
 }
 
-func mkSnapshot(tr *tracer.T, from, to *mkRep) {
+func mkSnapshot(tr *tracer.T, from, to *mkRep, log []mkEntry, rng *rand.Rand) {
 	ctx, err := from.sm.PrepareSnapshot()
 	if err != nil {
 		die("prepare: %v", err)
+	}
+	at := from.pos
+	tr.Emit(map[string]any{"ev": "sprepare", "rep": from.id})
+	// the state machine is a concurrent one: updates go on between PrepareSnapshot and SaveSnapshot
+	if rng.Intn(2) == 0 && from.pos < len(log) {
+		n := 1 + rng.Intn(3)
+		if from.pos+n > len(log) {
+			n = len(log) - from.pos
+		}
+		from.update(tr, log[from.pos:from.pos+n])
+		from.pos += n
 	}
 	var buf bytes.Buffer
 	if err := from.sm.SaveSnapshot(ctx, &buf, nil, nil); err != nil {
@@ -190,8 +201,8 @@ func mkSnapshot(tr *tracer.T, from, to *mkRep) {
 	if err := to.sm.RecoverFromSnapshot(&buf, nil, nil); err != nil {
 		die("recover: %v", err)
 	}
-	to.pos = from.pos
-	tr.Emit(map[string]any{"ev": "snap", "from": from.id, "to": to.id})
+	to.pos = at
+	tr.Emit(map[string]any{"ev": "snap", "from": from.id + 10, "to": to.id})
 }
 
 // mkRun : replicas consume one log with independent cuts, lookups and snapshot transfers
@@ -219,7 +230,7 @@ func mkRun(tr *tracer.T, rng *rand.Rand, log []mkEntry) {
 		case x < 75:
 			j := rng.Intn(nrep)
 			if j != i && reps[j].pos <= r.pos {
-				mkSnapshot(tr, r, reps[j])
+				mkSnapshot(tr, r, reps[j], log, rng)
 				mkLookups(tr, reps[j].id, lfsmLookup{reps[j].sm}, rng, 3)
 			}
 		default:
